@@ -113,10 +113,12 @@ def run_seed(patch, props):
             c = subprocess.run([sys.executable, os.path.join(VERIF, "check.py"), q, "--src", d, "--json", "--no-evidence"],
                                stdout=subprocess.PIPE, stderr=subprocess.STDOUT, text=True)
             keys = []
+            got_json = False
             for line in c.stdout.splitlines():
                 if line.startswith("[{") or line == "[]":
+                    got_json = True
                     keys = [o["key"] + ("" if o.get("reason") == "rule-breach" else " [%s]" % o.get("reason")) for o in json.loads(line)]
-            if c.returncode not in (0, 1):
+            if c.returncode not in (0, 1) or not got_json:
                 keys.append("CHECKER-ERROR rc=%d %s" % (c.returncode, c.stdout[-400:]))
             out[q] = keys
         return out
